@@ -67,6 +67,7 @@ fn other_width_ok(c: &Case) -> bool {
 
 impl Prop for TypeChecks {
     type Case = Case;
+    crate::prog_shrink!();
     fn name(&self) -> String {
         "C13/type-checks".into()
     }
